@@ -13,7 +13,7 @@ Definition r_gate (r : row) : string := let '(g, _, _, _) := r in g.
 Definition r_pairs (r : row) : bool := let '(_, p, _, _) := r in p.
 Definition r_K (r : row) : N := let '(_, _, k, _) := r in k.
 Definition r_flips (r : row) : list (string * N * N) := let '(_, _, _, f) := r in f.
-Definition row_of (g : string) : option row := find (fun r => String.eqb (r_gate r) g) frame_noise.
+Definition row_in (tbl : list row) (g : string) : option row := find (fun r => String.eqb (r_gate r) g) tbl.
 
 (* code of the Pauli flipped on qubit `who` when p is drawn: bit 0 = x component, bit 1 = z component *)
 Definition fires (mask p : N) : bool := if N.eqb mask 0 then true else negb (N.eqb (N.land p mask) 0).
@@ -24,26 +24,28 @@ Definition pauli_code (who p : N) (fl : list (string * N * N)) : N :=
 Definition roles_ok (r : row) : bool :=
   forallb (fun '(t, w, _) => (String.eqb t "x" || String.eqb t "z") && (N.eqb w 1 || (r_pairs r && N.eqb w 2))) (r_flips r).
 
-Definition fixed_ok (g : string) (code : N) : bool :=
-  match row_of g with
+Definition fixed_ok (tbl : list row) (g : string) (code : N) : bool :=
+  match row_in tbl g with
   | Some r => negb (r_pairs r) && N.eqb (r_K r) 0 && roles_ok r && N.eqb (pauli_code 1 0 (r_flips r)) code
   | None => false end.
 Fixpoint upto (n : nat) : list N := match n with O => [] | S m => upto m ++ [N.of_nat n] end.
 Definition sortedN (l : list N) : list N :=
   fold_right (fun x acc => (fix ins (a : N) (l : list N) := match l with [] => [a] | y :: r => if N.leb a y then a :: l else y :: ins a r end) x acc) [] l.
 Definition list_eqb (a b : list N) : bool := (Nat.eqb (List.length a) (List.length b)) && forallb (fun '(x, y) => N.eqb x y) (combine a b).
-Definition dep1_ok : bool :=
-  match row_of "DEPOLARIZE1" with
+Definition dep1_ok (tbl : list row) : bool :=
+  match row_in tbl "DEPOLARIZE1" with
   | Some r => negb (r_pairs r) && N.eqb (r_K r) 3 && roles_ok r &&
               list_eqb (sortedN (map (fun p => pauli_code 1 p (r_flips r)) (upto 3))) (upto 3)
   | None => false end.
-Definition dep2_ok : bool :=
-  match row_of "DEPOLARIZE2" with
+Definition dep2_ok (tbl : list row) : bool :=
+  match row_in tbl "DEPOLARIZE2" with
   | Some r => r_pairs r && N.eqb (r_K r) 15 && roles_ok r &&
               list_eqb (sortedN (map (fun p => (pauli_code 1 p (r_flips r) + 4 * pauli_code 2 p (r_flips r))%N) (upto 15))) (upto 15)
   | None => false end.
 Definition is_nil {A} (l : list A) : bool := match l with [] => true | _ => false end.
-Definition frame_noise_all_ok : bool :=
-  is_nil frame_noise_refused && fixed_ok "X_ERROR" 1 && fixed_ok "Y_ERROR" 3 && fixed_ok "Z_ERROR" 2 && dep1_ok && dep2_ok.
+Definition table_ok (tbl : list row) : bool :=
+  fixed_ok tbl "X_ERROR" 1 && fixed_ok tbl "Y_ERROR" 3 && fixed_ok tbl "Z_ERROR" 2 && dep1_ok tbl && dep2_ok tbl.
+(* both the bulk sampler and the single-shot simulator *)
+Definition frame_noise_all_ok : bool := is_nil frame_noise_refused && table_ok frame_noise && table_ok tableau_noise.
 Theorem frame_noise_routines_are_documented_mixtures : frame_noise_all_ok = true.
 Proof. vm_compute. reflexivity. Qed.
